@@ -42,12 +42,28 @@ type Isqrt struct {
 func (f *Isqrt) Call(s *slip.Scope, args slip.List, depth int) (result slip.Object) {
 	slip.CheckArgCount(s, depth, f, args, 1, 1)
 	switch ta := args[0].(type) {
-	case *slip.Bignum:
-		result = (*slip.Bignum)((*big.Int)(ta).Sqrt((*big.Int)(ta)))
-	case *slip.LongFloat:
+	case slip.Fixnum:
+		if ta < 0 {
+			slip.ArithmeticPanic(s, depth, f, args, "only non-negative values are allowed")
+		}
 		var z big.Int
-		bi, _ := (*big.Float)(ta).Sqrt((*big.Float)(ta)).Int(&z)
-		result = (*slip.Bignum)(bi)
+		result = slip.Fixnum(z.Sqrt(big.NewInt(int64(ta))).Int64())
+	case *slip.Bignum:
+		if (*big.Int)(ta).Sign() < 0 {
+			slip.ArithmeticPanic(s, depth, f, args, "only non-negative values are allowed")
+		}
+		var z big.Int
+		result = reduceNumber((*slip.Bignum)(z.Sqrt((*big.Int)(ta))))
+	case *slip.LongFloat:
+		if (*big.Float)(ta).Sign() < 0 {
+			slip.ArithmeticPanic(s, depth, f, args, "only non-negative values are allowed")
+		}
+		var (
+			z  big.Int
+			zf big.Float
+		)
+		bi, _ := zf.Sqrt((*big.Float)(ta)).Int(&z)
+		result = reduceNumber((*slip.Bignum)(bi))
 	case slip.Real:
 		rv := ta.RealValue()
 		if rv < 0.0 {
